@@ -11,7 +11,12 @@ VERIF = os.path.dirname(HERE)
 TRUST = ('Trusted base: CPython ast module as the reader of /repo; the '
          'class-hierarchy-by-name call resolution of sa/model.py (no '
          'reflection in the pipeline, assumption A5); the CFG builder of '
-         'sa/cfg.py (implicit exceptions outside try blocks not modelled). '
+         'sa/cfg.py (implicit exceptions outside try blocks not modelled); the '
+         'normalisations applied before the rules run - variables and moved '
+         'functions identified by role against sa/roles_ref.json (recorded from '
+         'the pinned tree; it only decides which construct a rule is talking '
+         'about, never the verdict), new helper functions read in place '
+         '(sa/inline.py), named constants read as their definitions. '
          'The behaviour itself (rows returned) is NOT decided.')
 
 CLAIMED = {
@@ -137,7 +142,7 @@ def main():
                     serves_properties=sorted(CLAIMED),
                     kind_free_text='custom static analysis over Python ast (program model, CFG/dominators, table extraction, string-template skeletons, set-order taint, finite abstract interpretation) and the clang JSON AST of the C++ parser')],
       checks=checks,
-      notes='Static analysis only; every check re-parses /repo on each run. Exit 0 held / 1 VIOLATION / 2 ANALYSIS-ERROR (anchor vanished or checker broke). Thorough tier adds the whole-repo scope and the mutation self-test (selftest/).',
+      notes='Static analysis only; every check re-parses /repo on each run. Exit 0 held / 1 VIOLATION / 2 ANALYSIS-ERROR (anchor vanished or checker broke). Thorough tier adds the whole-repo scope and the self-test of the property (selftest/): hand-written and independently seeded mutants must be reported (seeded/), hand-written twins, seven whole-tree behaviour-preserving transformations and 132 independently written behaviour-preserving refactorings (benign/) must stay silent.',
       not_applicable=na)
   with open(os.path.join(VERIF, 'MANIFEST.json'), 'w') as f:
     json.dump(manifest, f, indent=1)
